@@ -185,3 +185,13 @@ prop("C05", "exploration", (300, 6000),
           "of the verifier from Fiat-Shamir masking.",
      note="Only delta~1-far deviations are used (random other function, doubled degree); deviations close to a codeword are legitimately accepted with noticeable probability and are not in the catalogue. "
           "Batched instances are generated so that the folding schedule meets every smaller degree exactly (an assert of the batched prover).")
+
+prop("C09", "exploration", (300, 6000),
+     rule="one run = one STARK instance from the simulator's family (definitions are data: polynomial first-row / last-row / transition / every-row constraints of degree 0-4 over 2-8 columns and 0-4 public inputs, "
+          "including a definition without constraints = no quotient; recurrence traces of 2^2..2^10 rows; StarkConfig: 1-3 challenges, rate 1-3, cap, pow, Fixed/ConstantArity/MinSize, Poseidon/Keccak) under a seeded schedule. "
+          "Cases: honest prove+verify; single trace-cell faults at rows {0, 1, mid, n-2, n-1 (wrap-around)}; a prover using a changed public input; element and list faults on every component of the accepted proof and its public inputs. "
+          "Oracle: the simulator evaluates the definition directly on the (faulted) trace - violated => no accepted proof (prover error or verifier rejection), satisfied (unconstrained cell / public input) => accepted; every tampered proof rejected. "
+          "distinct = (instance, config, fault); non-trivial = the reference check finds the fault violating (or the message fault changed the value)",
+     technique="deterministic simulation: STARK prover/verifier under seeded schedules with trace-cell, public-input and proof faults; direct evaluation of the data-defined constraints as reference",
+     text="Seeded exploration of a family of STARK definitions in both directions: satisfying traces (also after changing unconstrained cells) prove and verify, every single-cell or public-input violation and every tampered proof is rejected.",
+     note="The family is defined in the simulator (the repository's example STARKs are test-only); lookups and cross-table lookups are C10. Build variant v0 has debug assertions off, so the shipped prover reaches the verifier with violating traces.")
